@@ -36,14 +36,14 @@ async def debounced_sorted_prefix(
 
     flushed = False
     async for item in merged:
-        if item == "__COMPLETE__":
+        if item is _COMPLETE:
             buffer.sort(key=key)
             for buffered_item in buffer:
                 yield buffered_item
             buffer = []
             flushed = True
         else:
-            # item is T after checking != "__COMPLETE__"
+            # item is T after checking it is not the completion marker
             actual_item = cast(T, item)
             # pass through only once the burst has really been flushed: the
             # debouncer may already be complete while its marker is still in flight
@@ -55,6 +55,8 @@ async def debounced_sorted_prefix(
 
 
 COMPLETE = Literal["__COMPLETE__"]
+# unique completion marker: compared by identity so that no input item can collide with it
+_COMPLETE: Any = object()
 
 
 async def merge_generators(
@@ -202,4 +204,4 @@ class Debouncer:
     async def aiter(self) -> AsyncGenerator[COMPLETE, None]:
         """Yield a stream that emits an element when the wait event occurs."""
         await self.wait()
-        yield "__COMPLETE__"
+        yield _COMPLETE
